@@ -727,22 +727,27 @@ def matchKnown (d : Decls) (defs : Defs) (symCtx : List String) : Nat → IMatch
       match d.symbols.tryGetByName symCtx level path with
       | none => false
       | some r => (defs.sym r).known
+    -- arguments are judged outside the rule's scope (`args_provider`); the production with
+    -- every parameter as a local
     let p0 : SKProvider := { queryVariable := qv, queryFunction := asmBuiltinKnown }
-    let p := matchKnownArgs d defs symCtx fuel rule m.args 0 p0
-    staticallyKnown p rule.expr
+    match matchKnownArgs d defs symCtx fuel rule m.args 0 p0 p0 with
+    | none => false
+    | some p => staticallyKnown p rule.expr
 
-def matchKnownArgs (d : Decls) (defs : Defs) (symCtx : List String) : Nat → Rule → List IArg → Nat → SKProvider → SKProvider
-  | 0, _, _, _, p => p
-  | _ + 1, _, [], _, p => p
-  | fuel + 1, rule, a :: rest, i, p =>
+/-- `none` = some argument is not statically known (the match is then not statically known) -/
+def matchKnownArgs (d : Decls) (defs : Defs) (symCtx : List String) : Nat → Rule → List IArg → Nat → SKProvider → SKProvider →
+    Option SKProvider
+  | 0, _, _, _, _, p => some p
+  | _ + 1, _, [], _, _, p => some p
+  | fuel + 1, rule, a :: rest, i, pa, p =>
     let param := rule.params.getD i ("", .unspecified)
-    let p' := match param.2, a with
-      | .ruledefRef _, .nested nm _ _ _ =>
-        if matchKnown d defs symCtx fuel nm then p.setLocal param.1 { valueKnown := true } else p
-      | .ruledefRef _, _ => p
-      | _, .expr e _ _ _ => if staticallyKnown p e then p.setLocal param.1 { valueKnown := true } else p
-      | _, _ => p
-    matchKnownArgs d defs symCtx fuel rule rest (i + 1) p'
+    let known := match param.2, a with
+      | .ruledefRef _, .nested nm _ _ _ => matchKnown d defs symCtx fuel nm
+      | .ruledefRef _, _ => false
+      | _, .expr e _ _ _ => staticallyKnown pa e
+      | _, _ => false
+    if !known then none
+    else matchKnownArgs d defs symCtx fuel rule rest (i + 1) pa (p.setLocal param.1 { valueKnown := true })
 end
 
 mutual
